@@ -38,8 +38,15 @@ var z struct {
 }
 
 func zCtx(ctx context.Context, r *zRec) {
-	if md, ok := metadata.FromOutgoingContext(ctx); ok {
-		r.md = md
+	// the metadata as the transport will read (and validate) it: FromOutgoingContext would lower-case
+	// the keys on the way out, the transport does not
+	if md, added, ok := metadata.FromOutgoingContextRaw(ctx); ok {
+		r.md = md.Copy()
+		for _, kv := range added {
+			for i := 0; i+1 < len(kv); i += 2 {
+				r.md[kv[i]] = append(r.md[kv[i]], kv[i+1])
+			}
+		}
 	}
 	r.deadline = -1
 	if d, ok := ctx.Deadline(); ok {
